@@ -57,6 +57,7 @@ pub struct World<S: MdkStorageProvider> {
     pub msg_ids: BTreeMap<EventId, u64>,
     pub admin_mask: u64,
     pub base_ts: u64,
+    pub leave_ev: BTreeMap<usize, u64>,   // member -> its leave proposal event
 }
 
 pub fn id_order_key(id: &EventId) -> u64 {
@@ -104,7 +105,7 @@ impl<S: MdkStorageProvider> World<S> {
             clients[i].mdk.accept_welcome(&w).unwrap();
         }
         let now = nostr::Timestamp::now().as_secs();
-        let mut w = World { clients, gid, events: BTreeMap::new(), sigma: BTreeMap::new(), msg_ids: BTreeMap::new(), admin_mask: admin_mask | 1, base_ts: now - 5000 };
+        let mut w = World { clients, gid, events: BTreeMap::new(), sigma: BTreeMap::new(), msg_ids: BTreeMap::new(), admin_mask: admin_mask | 1, base_ts: now - 5000, leave_ev: BTreeMap::new() };
         let a = w.auth(0);
         w.sigma.insert(a, 0);
         w
@@ -156,6 +157,7 @@ impl<S: MdkStorageProvider> World<S> {
         msgs.sort();
         let last = g.as_ref().and_then(|g| g.last_message_id).map(|id| self.msg_ids.get(&id).cloned().unwrap_or(999).to_string()).unwrap_or("-".into());
         let name = g.as_ref().map(|g| g.name.clone()).unwrap_or_default();
+        let st = if act == 1 { st } else { "x".to_string() };
         format!("res={res} ep={ep} mls={mlsep} st={st} act={act} pend={pend} props={props} snaps={snaps} dd={dd} name={name} last={last} msgs={}",
             if msgs.is_empty() { "-".into() } else { msgs.iter().map(|(i, s, e)| format!("{i}:{s}:{e}")).collect::<Vec<_>>().join(",") })
     }
@@ -172,6 +174,9 @@ impl<S: MdkStorageProvider> World<S> {
                 let st = self.sigma_of(m, None); let ep = self.mls_epoch(m);
                 self.set_ts(ts);
                 let gid = self.gid.clone();
+                // OpenMLS sweeps the creator's pending proposals into the commit: members they remove (ground truth of the content)
+                let swept: Vec<usize> = self.clients[m].mdk.pending_removed_members_pubkeys(&gid).unwrap_or_default().iter()
+                    .filter_map(|pk| self.clients.iter().position(|c| c.keys.public_key() == *pk)).collect();
                 let r = catch_unwind(AssertUnwindSafe(|| match kind {
                     "su" => self.clients[m].mdk.self_update(&gid),
                     _ => self.clients[m].mdk.update_group_data(&gid, NostrGroupDataUpdate::new().name(format!("g{}", ev + 1))),
@@ -182,7 +187,10 @@ impl<S: MdkStorageProvider> World<S> {
                         self.register_pending(m, ev);
                         let key = id_order_key(&u.evolution_event.id);
                         self.events.insert(ev, EvInfo { event: u.evolution_event, kind: "commit".into(), author: m, state: st.parse().unwrap_or(9999), epoch: ep, ts, msg: None, ckind: kind.into() });
-                        let facts = format!("author={m} parent={st} pepoch={ep} idkey={key} auth={} data={}", (is_admin || kind == "su") as u8, if kind == "rn" { ev + 1 } else { 0 });
+                        let removes = if swept.is_empty() { "-".to_string() } else { swept.iter().map(|x| x.to_string()).collect::<Vec<_>>().join(",") };
+                        let refs: Vec<String> = swept.iter().filter_map(|x| self.leave_ev.get(x)).map(|e| e.to_string()).collect();
+                        let refs = if refs.is_empty() { "-".to_string() } else { refs.join(",") };
+                        let facts = format!("author={m} parent={st} pepoch={ep} idkey={key} auth={} data={} removes={removes} refs={refs}", (is_admin || (kind == "su" && swept.is_empty())) as u8, if kind == "rn" { ev + 1 } else { 0 });
                         (format!("{} | {facts}", t.join(" ")), self.fingerprint(m, "ok", None, Some(ev)))
                     }
                     Ok(Err(_)) => (format!("{} | refused=1 admin={}", t.join(" "), is_admin as u8), self.fingerprint(m, "Err", None, None)),
@@ -227,6 +235,7 @@ impl<S: MdkStorageProvider> World<S> {
                 let r = catch_unwind(AssertUnwindSafe(|| self.clients[m].mdk.leave_group(&gid)));
                 match r {
                     Ok(Ok(u)) => {
+                        self.leave_ev.insert(m, ev);
                         let key = id_order_key(&u.evolution_event.id);
                         self.events.insert(ev, EvInfo { event: u.evolution_event, kind: "prop".into(), author: m, state: st.parse().unwrap_or(9999), epoch: ep, ts, msg: None, ckind: "leave".into() });
                         (format!("{} | author={m} state={st} epoch={ep} idkey={key}", t.join(" ")), self.fingerprint(m, "ok", None, Some(ev)))
@@ -234,6 +243,27 @@ impl<S: MdkStorageProvider> World<S> {
                     Ok(Err(_)) => (format!("{} | refused=1", t.join(" ")), self.fingerprint(m, "Err", None, None)),
                     Err(_) => (format!("{} | refused=1", t.join(" ")), "PANIC".into()),
                 }
+            }
+            "BAD" => {
+                // hostile / malformed wrapper events built by an outsider: PR BAD <ev> <ts> <class>
+                //   0 wrong kind (valid h tag)   1 no h tag   2 h tag of an unknown group   3 undecryptable content (valid h tag)
+                //   4 timestamp far in the future (valid h tag)
+                let (ev, ts, cls) = (n(2), n(3), n(4));
+                let g = self.clients[0].mdk.get_group(&self.gid).ok().flatten().unwrap();
+                let h = nostr::Tag::custom(nostr::TagKind::h(), [hex::encode(g.nostr_group_id)]);
+                let keys = Keys::generate();
+                let content = "AgEBAQEBAQEBAQEBAQEBAQEBAQEBAQEBAQEBAQEBAQEBAQEBAQEBAQEBAQEBAQEBAQEBAQEBAQEBAQEBAQEBAQEBAQEBAQEBAQEBAQEBAQEBAQEBAQEBAQEBAQEBAQEBAQEB";
+                let created = nostr::Timestamp::from(if cls == 4 { self.base_ts + 5000 + 100000 } else { self.base_ts + ts });
+                let b = match cls {
+                    0 | 4 => EventBuilder::new(if cls == 0 { Kind::TextNote } else { Kind::MlsGroupMessage }, content).tag(h),
+                    1 => EventBuilder::new(Kind::MlsGroupMessage, content),
+                    2 => EventBuilder::new(Kind::MlsGroupMessage, content).tag(nostr::Tag::custom(nostr::TagKind::h(), [hex::encode([0x5au8; 32])])),
+                    _ => EventBuilder::new(Kind::MlsGroupMessage, content).tag(h),
+                };
+                let e = b.custom_created_at(created).sign_with_keys(&keys).unwrap();
+                let model_cls = match cls { 0 | 4 => 0, 1 => 1, 2 => 2, _ => 3 };
+                self.events.insert(ev, EvInfo { event: e, kind: "bad".into(), author: 99, state: 9999, epoch: 0, ts, msg: None, ckind: format!("bad{cls}") });
+                (format!("{} | bad={model_cls}", t.join(" ")), "ok".into())
             }
             "DELIVER" => {
                 let (m, ev) = (n(2) as usize, n(3));
